@@ -48,6 +48,8 @@ Record thr := {
     by the signal handler, and (H6) whether the thread has a node in the set after the listener ran *)
 Inductive mev :=
 | MChange (c : nat) (old new : cst) (preempt : bool) (has_node : bool)
+| MWork (c : nat) (n : Z)          (* the body reports a finished piece of computing *)
+| MYield (c : nat)                 (* the body announces a cooperative suspend *)
 | MSignal (t : nat).
 
 Record mst := {
@@ -169,7 +171,7 @@ Definition step_thread (s : mst) (t : nat) : mst :=
           | [] =>
               let s1 := change s c (CDone (c_acc kc)) false in
               upd_thr s1 t (t_with_sched (get_thr s1 t) (t_ready (get_thr s1 t)) None)
-          | IWork n :: b => set_body s c b (c_acc kc + n)
+          | IWork n :: b => let s1 := set_body s c b (c_acc kc + n) in with_log s1 (m_log s1 ++ [MWork c n])
           | ISysEnter :: b =>
               let s1 := set_body s c b (c_acc kc) in
               match c_st kc with CRunning => change s1 c CSyscall false | _ => s1 end
@@ -178,7 +180,10 @@ Definition step_thread (s : mst) (t : nat) : mst :=
               match c_st kc with CSyscall => change s1 c CRunning false | _ => s1 end
           | IYield :: b =>
               let s1 := set_body s c b (c_acc kc) in
-              match c_st kc with CRunning => yield_thread s1 t c false | _ => s1 end
+              match c_st kc with
+              | CRunning => yield_thread (with_log s1 (m_log s1 ++ [MYield c])) t c false
+              | _ => s1
+              end
           end
       end
   end.
